@@ -908,7 +908,8 @@ class Unit:
 
     def note_item(self, file, what, it, applied):
         h = hashlib.sha256(it.text.encode()).hexdigest()[:16]
-        self.extracted.append({"file": file, "item": what, "line": it.line, "sha256_16": h,
+        nh = hashlib.sha256(re.sub(r"\s+", " ", strip_comments(it.text)).strip().encode()).hexdigest()[:16]
+        self.extracted.append({"file": file, "item": what, "line": it.line, "sha256_16": h, "norm_sha256_16": nh,
                                "rewrites": applied})
         for r in applied:
             self.rewrite_counts[r] = self.rewrite_counts.get(r, 0) + 1
